@@ -23,6 +23,8 @@ func init() {
 			{ID: "R03a", Floor: 1, Doc: "view coherence: no use of the raw reader after it was wrapped by ToByteReadSeeker when the wrapper's position is later observed", Run: ruleR03a},
 			{ID: "R03b", Floor: 2, Doc: "recorded offset = position of the scanned reader before the section's length read, re-based by the parsed header's DataOffset (LoadIndex) / not re-based (Resume)", Run: ruleR03b},
 			{ID: "R03c", Floor: 2, Doc: "identity gate and CID-size gate dominate the record append in LoadIndex", Run: ruleR03c},
+			{ID: "R03e", Floor: 1, Doc: "end-of-payload test compares the payload-relative position with DataSize", Run: ruleR03e},
+			{ID: "R03f", Floor: 2, Doc: "the insertion index never replaces an entry (its ordering is by digest only): Load/InsertNoReplace use llrb.InsertNoReplace", Run: ruleR03f},
 			{ID: "R03d", Floor: 2, Doc: "discardingReadSeekerPlusByte: every byte source (ReadByte, Seek's discard) reads through the counting Read, which adds exactly the returned count", Run: ruleR03d},
 		},
 	})
@@ -510,4 +512,102 @@ func ruleR03d(c *Ctx, r *Report) {
 		}
 		r.Check(bad == "", key, c.Pos(fn.Pos()), fmt.Sprintf("%d read(s), all through the counting receiver", n), bad)
 	}
+}
+
+// ruleR03e: DataSize is payload-relative, so whatever is compared with it must be re-based too.
+func ruleR03e(c *Ctx, r *Report) {
+	fn, err := c.Func(modV2, "", "LoadIndex")
+	if err != nil {
+		r.InfraFail("%v", err)
+		return
+	}
+	key := "payload-end-test@" + fnKey(fn)
+	isSize := func(v ssa.Value) bool {
+		hasField := false
+		for _, o := range origins(v, originOpts{}) {
+			switch {
+			case o.Kind == "field" && o.Field != nil && o.Field.Name() == "DataSize":
+				hasField = true
+			case o.Kind == "const":
+			default:
+				return false
+			}
+		}
+		return hasField
+	}
+	n := 0
+	bad := ""
+	eachInstr(fn, func(in ssa.Instruction) {
+		b, ok := in.(*ssa.BinOp)
+		if !ok {
+			return
+		}
+		switch b.Op {
+		case token.GEQ, token.GTR, token.LSS, token.LEQ:
+		default:
+			return
+		}
+		var other ssa.Value
+		switch {
+		case isSize(b.Y) && !isSize(b.X):
+			other = b.X
+		case isSize(b.X) && !isSize(b.Y):
+			other = b.Y
+		default:
+			return
+		}
+		if _, isConst := constInt(other); isConst {
+			return // sanity checks of the header fields themselves
+		}
+		n++
+		for _, leaf := range phiLeaves(other) {
+			sub, ok := leaf.(*ssa.BinOp)
+			rebased := false
+			if ok && sub.Op == token.SUB {
+				for _, o := range origins(sub.Y, originOpts{}) {
+					if o.Kind == "field" && o.Field != nil && o.Field.Name() == "DataOffset" {
+						rebased = true
+					}
+				}
+			}
+			if !rebased {
+				bad = fmt.Sprintf("at %s a file-relative position is compared with the payload size (DataSize): the scan stops DataOffset bytes early and the last sections of a CARv2 are not indexed", c.Pos(b.Pos()))
+			}
+		}
+	})
+	if n == 0 {
+		bad = "no end-of-payload test against DataSize found: the scan of a CARv2 would run into the index"
+	}
+	r.Check(bad == "", key, c.Pos(fn.Pos()), "position - DataOffset compared with DataSize", bad)
+}
+
+func ruleR03f(c *Ctx, r *Report) {
+	const llrbPkg = "github.com/petar/GoLLRB/llrb"
+	nIns := 0
+	for _, fn := range c.RepoFuncs() {
+		if fn.Pkg == nil || fn.Pkg.Pkg.Path() != pkgIndex {
+			continue
+		}
+		ord := 0
+		eachInstr(fn, func(in ssa.Instruction) {
+			ci, ok := in.(*ssa.Call)
+			if !ok {
+				return
+			}
+			f := calleeFunc(ci.Common())
+			if f == nil || f.Pkg() == nil || f.Pkg().Path() != llrbPkg {
+				return
+			}
+			switch f.Name() {
+			case "InsertNoReplace", "InsertNoReplaceBulk":
+				nIns++
+				ord++
+				r.Hold(fmt.Sprintf("llrb-insert@%s#%d", fnKey(fn), ord), c.Pos(in.Pos()), "keeps entries with equal digests side by side")
+			case "ReplaceOrInsert", "ReplaceOrInsertBulk", "Delete", "DeleteMin", "DeleteMax":
+				ord++
+				r.Viol(fmt.Sprintf("llrb-insert@%s#%d", fnKey(fn), ord), c.Pos(in.Pos()), "llrb."+f.Name()+" on the insertion index: its Less compares bare digests, so records with equal digests (duplicate sections, the same digest under another hash code or codec, identity vs hashed) evict each other and present CIDs are reported not-found")
+			}
+		})
+	}
+	r.Count("llrb insertions in package index", nIns)
 }
